@@ -40,6 +40,10 @@ pub struct C11Case {
     pub ctx: Option<u8>,
     /// frames appended after the read (ctx, ephemeral)
     pub live: Vec<(u8, bool)>,
+    /// how long after the scenario starts the live writer begins (us): small values put the
+    /// appends into the reader's history -> live hand-off
+    #[serde(default)]
+    pub live_delay_us: u16,
     pub lag: Option<Lag>,
     pub rules: Vec<SRule>,
 }
@@ -58,8 +62,9 @@ pub fn strategy() -> BoxedStrategy<C11Case> {
                 .prop_map(|(point, writer, occurrence, delay)| SRule { point, writer, occurrence, delay }),
             0..=2,
         ),
+        prop_oneof![2 => Just(25_000u16), 3 => 200u16..3000, 1 => 3000u16..25_000],
     )
-        .prop_map(|(limit, history_delta, follow, tail, last_id, ctx, live, rules)| C11Case {
+        .prop_map(|(limit, history_delta, follow, tail, last_id, ctx, live, rules, live_delay_us)| C11Case {
             limit,
             history_delta,
             follow,
@@ -67,6 +72,7 @@ pub fn strategy() -> BoxedStrategy<C11Case> {
             last_id,
             ctx,
             live,
+            live_delay_us,
             lag: None,
             rules,
         });
@@ -85,6 +91,7 @@ pub fn strategy() -> BoxedStrategy<C11Case> {
             last_id: None,
             ctx,
             live: vec![],
+            live_delay_us: 25_000,
             lag: Some(Lag {
                 stall_after,
                 burst,
@@ -92,7 +99,38 @@ pub fn strategy() -> BoxedStrategy<C11Case> {
             }),
             rules: vec![],
         });
-    prop_oneof![12 => normal, 1 => lag].boxed()
+    // the n frames arrive inside the hand-off: the reader is held right after subscribing (or its
+    // replay at the first delivery) while a writer appends, so the same frames are both in the
+    // subscription queue and in the replay's range
+    let handoff = (
+        2u8..=6,
+        -4i8..=-1,
+        prop_oneof![2 => Just(Some(0u8)), 1 => (5u8..50).prop_map(Some)],
+        proptest::option::weighted(0.3, 0u8..3),
+        // (stored frames only: an ephemeral frame appended during the hand-off is the recorded C03 finding)
+        proptest::collection::vec((0u8..3, Just(false)), 3..8),
+        prop_oneof![Just(0u8), Just(1u8)],
+        prop_oneof![Just(2u8), Just(3u8)],
+        300u16..2500,
+    )
+        .prop_map(|(limit, history_delta, follow, ctx, live, point, delay, live_delay_us)| C11Case {
+            limit: Some(limit),
+            history_delta,
+            follow,
+            tail: false,
+            last_id: None,
+            ctx,
+            live,
+            live_delay_us,
+            lag: None,
+            rules: vec![SRule {
+                point,
+                writer: 0,
+                occurrence: Some(0),
+                delay,
+            }],
+        });
+    prop_oneof![10 => normal, 3 => handoff, 1 => lag].boxed()
 }
 
 fn spec(topic: &str, ctx: u128, ttl: Option<WTtl>) -> FrameSpec {
@@ -164,7 +202,7 @@ fn run_in(case: &C11Case, exec: &mut Exec) -> Result<CaseInfo, Fail> {
         });
     } else if !case.live.is_empty() {
         writers.push(WriterSpec {
-            start_delay_us: 25_000,
+            start_delay_us: if case.live_delay_us == 0 { 25_000 } else { case.live_delay_us as u64 },
             frames: case
                 .live
                 .iter()
@@ -242,7 +280,7 @@ fn run_in(case: &C11Case, exec: &mut Exec) -> Result<CaseInfo, Fail> {
     if let Some(l) = opts.limit {
         expected.truncate(l);
     }
-    let must_end = !following || opts.limit.map(|l| full_len >= l).unwrap_or(false);
+    let mut must_end = !following || opts.limit.map(|l| full_len >= l).unwrap_or(false);
 
     // ---- wait for the end of the stream where one is due (bounded response) ----------
     let mut f = f;
@@ -406,6 +444,8 @@ fn run_in(case: &C11Case, exec: &mut Exec) -> Result<CaseInfo, Fail> {
                 if alt_ids == got_ids {
                     known_hits.push("ephemeral-lost-during-replay".to_string());
                     want_ids = alt_ids;
+                    // with those frames lost the limit may not have been reached yet
+                    must_end = !following || opts.limit.map(|l| full_len - lost.len() >= l).unwrap_or(false);
                 }
             }
         }
@@ -555,7 +595,7 @@ pub fn run(tier: Tier, seed: u64, replay: Option<&std::path::Path>) -> i32 {
         tier,
         seed,
         level: "exploration",
-        rule: "one reader per scenario: limit n in 1..6 or none, history sized n-3..n+3 frames in the reader's scope, follow off / on / with heartbeat 5..49 ms, tail, last-id on an existing frame, optional context scope, 0..7 stored and ephemeral frames appended after the read is in place, 0..2 schedule delays at the read/append sync points; one case in thirteen is a slow consumer that stops receiving after 1..39 frames while 1200..2000 frames are appended (past the 100-slot delivery channel and the 1024-slot broadcast buffer), during replay of a 130-frame history or afterwards. A second plain follower and the final read observe that synthetic frames go nowhere else. Oracle: the real frames delivered are exactly the first n of (matching history ++ matching live appends) and then the stream ends (closed within 3 s, 1000x normal latency); no threshold with a limit or without follow, exactly one otherwise (none for tail); no pulse without heartbeat; tail delivers nothing historical; slow consumer: delivered frames are a gap-free prefix and, if frames are missing, the stream ends (three further pulses with frames still missing = violation). Non-trivial = history == limit, or the n frames split between history and live, or the consumer lagged out. Distinct by parameter hash.",
+        rule: "one reader per scenario: limit n in 1..6 or none, history sized n-3..n+3 frames in the reader's scope, follow off / on / with heartbeat 5..49 ms, tail, last-id on an existing frame, optional context scope, 0..7 stored and ephemeral frames appended 0.2..25 ms after the read was called (inside or after its history -> live hand-off), 0..2 schedule delays at the read/append sync points; one case in thirteen is a slow consumer that stops receiving after 1..39 frames while 1200..2000 frames are appended (past the 100-slot delivery channel and the 1024-slot broadcast buffer), during replay of a 130-frame history or afterwards. A second plain follower and the final read observe that synthetic frames go nowhere else. Oracle: the real frames delivered are exactly the first n of (matching history ++ matching live appends) and then the stream ends (closed within 3 s, 1000x normal latency); no threshold with a limit or without follow, exactly one otherwise (none for tail); no pulse without heartbeat; tail delivers nothing historical; slow consumer: delivered frames are a gap-free prefix and, if frames are missing, the stream ends (three further pulses with frames still missing = violation). Non-trivial = history == limit, or the n frames split between history and live, or the consumer lagged out. Distinct by parameter hash.",
         assumptions: vec![
             "cases in which a live append began before the reader's subscription was observably in place are counted as inconclusive-timing and not judged".into(),
             "stream end is a bounded-response clause: 3 s against microsecond-scale normal latency".into(),
